@@ -6,5 +6,7 @@ CONSTANTS
   Rich = FALSE
   Sweep = TRUE
   AsWas = FALSE
+  Rep = {}
+  CheckIndependent = TRUE
 INVARIANTS Refines
 CHECK_DEADLOCK FALSE
